@@ -114,12 +114,25 @@ def run_long(ctx, pt):
     from crysp.bits import Bits, pack, unpack
     l, d = pt
     s = {'ramp': ramp(l, 37, 5), 'exp': expander(l, 1), 'asc': bytes(range(1, l + 1))}[d]
+    # the documented negative group orders are used first (unjudged: the property lists -1,+1,0,k only): what the judged
+    # orders mean must not depend on which convention was used first in the process
+    for o in orders(l):
+        if o >= 2 or o == 0:
+            ctx.attempt(lambda: Bits(s, bitorder=-(o or l)))
     for o in orders(l):
         n, x = model_load(s, o)
         r = ctx.attempt(lambda: val(Bits(s, bitorder=o)))
         ctx.eq('C07/from-bytes/bitorder=%s' % (o if abs(o) <= 1 else 'k'), r, ('ok', mval(n, x)))
-        r = ctx.attempt(lambda: val(Bits(s, size=8 * l - 3, bitorder=o)))
-        ctx.eq('C07/from-bytes-size/bitorder=%s' % (o if abs(o) <= 1 else 'k'), r, ('ok', mval(8 * l - 3, x & ((1 << (8 * l - 3)) - 1))))
+        for sz in sorted({0, 1, 7, 8, 9, 4 * l, 8 * l - 17, 8 * l - 9, 8 * l - 8, 8 * l - 3, 8 * l, 8 * l + 5}):
+            if sz < 0:
+                continue
+            r = ctx.attempt(lambda: val(Bits(s, size=sz, bitorder=o)))
+            ctx.eq('C07/from-bytes-size/bitorder=%s' % (o if abs(o) <= 1 else 'k'), r, ('ok', mval(sz, x & ((1 << sz) - 1))))
+    # and the judged orders once more in reverse sequence
+    for o in reversed(orders(l)):
+        n, x = model_load(s, o)
+        r = ctx.attempt(lambda: val(Bits(s, bitorder=o)))
+        ctx.eq('C07/from-bytes/order-of-use/bitorder=%s' % (o if abs(o) <= 1 else 'k'), r, ('ok', mval(n, x)))
     ctx.eq('C07/unpack-le', ctx.attempt(unpack, s), ('ok', (int.from_bytes(s, 'little'), 8 * l)))
     ctx.eq('C07/unpack-be', ctx.attempt(unpack, s, True), ('ok', (int.from_bytes(s, 'big'), 8 * l)))
     x = int.from_bytes(s, 'little')
@@ -173,7 +186,7 @@ def subchecks():
         Sub('short-bytes', pts_bytes2, run_bytes2, engine='D',
             bound='every byte string of length 0..2 under bitorder in {-1,+1,0,2}, with and without size'),
         Sub('byte-strings', pts_long, run_long, engine='P',
-            bound='every byte length 1..40 x 3 patterns x bitorder in {-1,+1,0} U {k in 2..8 : k | len}; generalized unpack both endiannesses'),
+            bound='every byte length 1..40 x 3 patterns x bitorder in {-1,+1,0} U {k in 2..8 : k | len}, each with 12 explicit sizes, and again after negative group orders were used; generalized unpack both endiannesses'),
         Sub('wide', pts_wide, run_wide, engine='P', exhaustive=False,
             bound='widths 17..130, 255..257, 1023..1025, 2047..2049 (quick: subset) x {0,1,2^k-1,2^k,2^k+1,2^n-1,alternating}; sampled per the property statement'),
     ]
